@@ -27,3 +27,9 @@ package blockproof
 //@   loop range commitMessages
 //@     invariant [builders] len(cSendersBuilders) == $i && len(cShares) == $i
 //@     invariant [copied] forall k int :: 0 <= k && k < $i ==> cSendersBuilders[k] != nil && alive[cSendersBuilders[k]] && cSendersBuilders[k].MemberId == commitMessages[k].content.Sender().MemberId() && cSendersBuilders[k].Signature == commitMessages[k].content.Sender().Signature()
+
+// Parsing of block-proof bytes from outside: on success the reader is the reader of exactly those bytes (every field was
+// read once; a reader panic on damaged bytes becomes the error - bounded stand-in, /verif/bounded).
+//@ func ReadBlockProof
+//@   props C02 C12
+//@   ensures [parsed] result1 == nil ==> result0 != nil && result0 == protocol.BlockProofReader(blockProofBytes)
